@@ -77,12 +77,14 @@ def answerPbEnc (pre post : List String) : String :=
   let kvw := pre.filter fun w => !w.startsWith "dict="
   match parseKVs kvw, (pre.find? fun w => w.startsWith "dict=").bind parseDict, post with
   | some kvs, some d, [res] =>
+    -- a nil element of Origins: `orig.Bytes()` is a method call on a nil interface (a Go value no decoder or
+    -- producer builds; outside well-formedness) — the modelled outcome is the panic
+    if ((getF kvs "PinOptions.Origins").map fun t => (t.splitOn ",").contains "m-").getD false then
+      (if res == "encpanic" then "ok arm=pbenc-nil-origin-panic trivial" else "diff arm=pbenc model=encpanic")
+    else
     match parsePin kvs "" with
     | none => "bad-case pbenc-pin"
     | some p =>
-      if p.opts.origins.any (fun o => o.tok == "m-") then
-        (if res == "encpanic" then "ok arm=pbenc-nil-origin-panic trivial" else "diff arm=pbenc model=encpanic")
-      else
       match rawOfPin d p with
       | none => "bad-case pbenc-dict"
       | some raw =>
